@@ -13,7 +13,9 @@ pandas_has_string_dtype_flag = hasattr(pdt, "is_string_dtype")
 
 @series_handle_nulls
 def _is_string(series: pd.Series, state: dict):
-    if not all(isinstance(v, str) for v in series.values[0:5]):
+    # every value has to be a str: the comparison below also holds for e.g. bytes,
+    # so testing a prefix only would make the answer depend on the row order
+    if not all(isinstance(v, str) for v in series.values):
         return False
     try:
         return (series.astype(str).values == series.values).all()
